@@ -74,6 +74,15 @@ class VConn(asyncio.Transport):
     def abort(self):
         self.close()
 
+    def reset(self):
+        """The DEVICE resets the session (RST): pending and later reads fail with ConnectionResetError, writes go nowhere;
+        the device has not seen an orderly end of stream."""
+        if self.closing:
+            return
+        self.closing = True
+        self.was_reset = True
+        self.loop.call_soon(self.protocol.connection_lost, ConnectionResetError(104, "Connection reset by peer"))
+
     def get_extra_info(self, name, default=None):
         if name == "peername":
             return self.addr
